@@ -90,8 +90,15 @@ def make_case(R):
         else:
             doc = {"s": "\ud83d", "t": ["ok", "\udc00x"], "é": " "}
             text = R.choice(["$..*", "$.s", "$.t[*]", "$[*]"])
-        return {"kind": "valid", "query": text, "doc_value": doc, "doc_bytes": json.dumps(doc, ensure_ascii=R.random() < 0.5).encode("utf-8", "surrogatepass")
+        case = {"kind": "valid", "query": text, "doc_value": doc, "doc_bytes": json.dumps(doc, ensure_ascii=R.random() < 0.5).encode("utf-8", "surrogatepass")
                 if not _has_surrogate(doc) else json.dumps(doc, ensure_ascii=True).encode(), "expect": "ok"}
+        if R.random() < 0.12 and isinstance(doc, (list, dict)):
+            # json.load() auto-detects UTF-8/16/32 (RFC 8259 8.1 history): the same document in another encoding, via -f only
+            enc = R.choice(["utf-16", "utf-16-le", "utf-16-be", "utf-32", "utf-32-le", "utf-8-sig"])
+            case["doc_bytes"] = json.dumps(doc, ensure_ascii=True).encode(enc)
+            case["file_only"] = True
+            case["kind"] = "valid:" + enc
+        return case
     if r < 0.72:
         cls = R.choice(sorted(BAD_QUERIES))
         return {"kind": "bad-query:" + cls, "query": R.choice(BAD_QUERIES[cls]), "doc_value": [1], "doc_bytes": b"[1]", "expect": "fail"}
